@@ -21,7 +21,7 @@ table = ["| seeded change | property | file | what was changed | caught by its o
 notes = open(os.path.join(ROOT, "seeded", "NOTES.md")).read() if os.path.exists(os.path.join(ROOT, "seeded", "NOTES.md")) else ""
 d = open(os.path.join(ROOT, "DESIGN.md")).read()
 start = d.index("### 10.6 Seeded changes")
-end = d.index("## Appendix A")
+end = d.index("### 10.7") if "### 10.7" in d else d.index("## Appendix A")
 head = d[start:].split("\n\n")[0:2]
 body = "\n\n".join(head) + "\n\n" + "\n".join(table) + "\n\n" + notes + "\n"
 d = d[:start] + body + d[end:]
